@@ -47,11 +47,52 @@ def parse_roles(prog, parv):
             roles["alg"] = fd["name"]
     vecs = [fd["name"] for fd in fields if "Vec<u8>" in fd["ty"]["t"]]
     stores = {}
-    for b, i, st in parv.assigns():
-        fl = [pe for pe in st["place"]["p"] if isinstance(pe, dict) and "f" in pe]
-        if len(fl) != 1 or adt["path"] not in parv.locals[st["place"]["l"]]["t"]:
+    # the parsing may be spread over private helpers and closures (iterator adapters): look at every
+    # non-public function of the parser's file reachable from it
+    bodies = [parv]
+    for k in prog.reach_fns([parv]):
+        g = prog.by_key[k]
+        if g.key != parv.key and g.file == parv.file and (g.kind == "closure" or g.vis != "pub") and g.path not in set(getattr(parv, "inlined", [])):
+            bodies.append(inline(prog, g) if g.kind != "closure" else g)
+    from ..core import single_def
+    for pv_ in bodies:
+      for b, i, st in pv_.assigns():
+        parv = pv_
+        place = st["place"]
+        if place["p"] == ["deref"]:
+            # a store through `&mut record.field` taken just before
+            d_ = single_def(parv, place["l"])
+            if d_ is not None and d_[1] == "assign" and d_[2]["rv"]["k"] in ("ref", "rawptr"):
+                place = d_[2]["rv"]["place"]
+            elif d_ is not None and d_[1] == "assign" and d_[2]["rv"]["k"] == "use" and parv.kind == "closure":
+                # the closure captured `&mut record.field` itself (disjoint capture): find the field at the
+                # place where the closure is created
+                x_ = d_[2]["rv"]["x"]
+                caps = [pe for pe in x_.get("p", []) if isinstance(pe, dict) and "f" in pe]
+                par_fn = prog.by_key.get(parv.parent) if parv.parent else None
+                if x_.get("l") == 1 and len(caps) == 1 and par_fn is not None:
+                    for b2, i2, st2 in par_fn.assigns():
+                        rv2 = st2["rv"]
+                        if rv2["k"] == "agg" and rv2.get("agg") == "closure" and rv2.get("key") == parv.key and caps[0]["f"] < len(rv2["ops"]):
+                            o2 = rv2["ops"][caps[0]["f"]]
+                            d2 = single_def(par_fn, o2["l"]) if o2.get("k") in ("copy", "move") else None
+                            if d2 is not None and d2[1] == "assign" and d2[2]["rv"]["k"] in ("ref", "rawptr"):
+                                pl2 = d2[2]["rv"]["place"]
+                                f2 = [pe for pe in pl2["p"] if isinstance(pe, dict) and "f" in pe]
+                                if f2 and f2[-1]["n"] in {fd["name"] for fd in fields}:
+                                    place = {"l": place["l"], "p": [f2[-1]]}
+                                    parv.locals[place["l"]].setdefault("_rec", True)
+        fl = [pe for pe in place["p"] if isinstance(pe, dict) and "f" in pe]
+        base_ty = parv.locals[place["l"]]
+        if base_ty.get("k") == "ref" and base_ty.get("inner", {}).get("t", "").startswith("{closure"):
+            base_ty = {"k": "closure", "t": base_ty["inner"]["t"]}
+        if len(fl) == 2 and base_ty.get("k") == "closure" and fl[1]["n"] in {fd["name"] for fd in fields}:
+            fl = fl[1:]          # `self.field = ..` inside a closure: (*(env.i)).field
+        elif len(fl) == 1 and base_ty.get("_rec"):
+            pass                 # resolved through a disjoint capture
+        elif len(fl) != 1 or adt["path"] not in base_ty["t"]:
             continue
-        stores.setdefault(fl[0]["n"], []).append((b, st))
+        stores.setdefault(fl[0]["n"], []).append((b, st, pv_))
         e = expr_of_operand(parv, st["rv"]["x"]) if st["rv"]["k"] == "use" else (E("agg", None, None, [expr_of_operand(parv, o) for o in st["rv"].get("ops", [])]) if st["rv"]["k"] == "agg" else None)
         # the stored value derives from the segment stripped of exactly one of the prefixes
         srcs = set()
@@ -69,10 +110,14 @@ def parse_roles(prog, parv):
         if len(hits) == 1:
             roles.setdefault(hits.pop(), fl[0]["n"])
     if len(vecs) == 2:
-        se = some_edges(parv)
+        ses = {}
         for a_, b_ in ((vecs[0], vecs[1]), (vecs[1], vecs[0])):
             # b_ is only ever filled where a_ is already known to be Some
-            if stores.get(b_) and all(any(fld == a_ and parv.edge_dominates(edge, sb) for edge, fld in se.items()) for sb, _ in stores[b_]):
+            def guarded(sb, pv_):
+                if pv_.key not in ses:
+                    ses[pv_.key] = some_edges(pv_)
+                return any(fld == a_ and pv_.edge_dominates(edge, sb) for edge, fld in ses[pv_.key].items())
+            if stores.get(b_) and all(guarded(sb, pv_) for sb, _, pv_ in stores[b_]):
                 roles["salt"], roles["hash"] = a_, b_
     missing = [r for r in ("hash", "salt", "alg", "t", "m", "p", "v") if r not in roles]
     if missing or len(set(roles.values())) != 7:
@@ -139,7 +184,19 @@ def run(ctx, rep):
     cons = prog.by_path.get("classic::crypto_pwhash::crypto_pwhash_str_verify", []) + prog.by_path.get("classic::crypto_pwhash::crypto_pwhash_str_needs_rehash", [])
     enc = [prog.by_key[k] for k in prog.reach_fns(prod) if any(c.path == "base64::Engine::encode" for c in prog.by_key[k].calls())
            and any(c.path in ("std::fmt::format", "alloc::fmt::format") for c in prog.by_key[k].calls())]
-    par = [prog.by_key[k] for k in prog.reach_fns(cons) if any(c.path == "base64::Engine::decode" for c in prog.by_key[k].calls())]
+    # the parser: the function whose view (private helpers folded in) base64-decodes and that hands back a
+    # crate-local record (Result<Record, _>), wherever the decoding itself lives
+    par = []
+    for k in prog.reach_fns(cons):
+        g = prog.by_key[k]
+        if g.kind == "closure":
+            continue
+        rt = g.locals[0]
+        okt = (rt.get("args") or [{}])[0].get("t", "") if rt.get("path") == "std::result::Result" else ""
+        if not any(a["path"] in okt for a in prog.adts.values() if a["path"].startswith("classic::crypto_pwhash::") and len(a["variants"]) == 1):
+            continue
+        if any(c.path == "base64::Engine::decode" for k2 in prog.reach_fns([g]) for c in prog.by_key[k2].calls()):
+            par.append(g)
     if not enc or not par:
         rep.violation("ANCHOR", "encoder/parser", "pwhash_to_string / parse_encoded_pwhash not found (base64 feature)")
         return
@@ -165,7 +222,8 @@ def encoder(rep, prog, enc, par, roles):
     for s in str_consts(prog.unit(enc)):
         for m in re.finditer(r"\$(argon2\w*)\$", s):
             e_alg.add(m.group(1))
-    p_alg = {m.group(1) for s in str_consts(prog.unit(par)) for m in [ALGO.match(s)] if m and m.group(1) != "argon2"}
+    pbodies = [g for g in (prog.by_key[k] for k in prog.reach_fns([par])) if g.file == par.file and (g.key == par.key or g.kind == "closure" or g.vis != "pub")]
+    p_alg = {m.group(1) for s in str_consts(pbodies) for m in [ALGO.match(s)] if m and m.group(1) != "argon2"}
     rep.ob("ENCODER", "algorithm names: parser accepts ⊆ encoder emits", bool(p_alg) and p_alg <= e_alg,
            "parser accepts %s, encoder can emit %s" % (sorted(p_alg), sorted(e_alg)), loc=enc.loc())
     # every parameter of the encoder reaches the formatted string
@@ -246,22 +304,8 @@ def encoder(rep, prog, enc, par, roles):
 
 def some_edges(f):
     """{(bb, target): field} edges on which Option field `field` of the parse state is known Some."""
-    out = {}
-    for b in range(f.n):
-        t = f.blocks[b]["t"]
-        if t["k"] != "switch":
-            continue
-        e = expr_of_operand(f, t["x"])
-        arms = {v: tb for v, tb in t["arms"]}
-        if e.k == "call" and e.a.path in ("std::option::Option::<T>::is_none", "std::option::Option::<T>::is_some"):
-            x = call_arg_exprs(e.a)[0]
-            if x.k == "field" and 0 in arms:
-                is_none = e.a.path.endswith("is_none")
-                tgt = arms[0] if is_none else t["otherwise"]
-                out[(b, tgt)] = x.b.split(".")[-1]
-        elif e.k == "discr" and e.a.k == "field" and 1 in arms:
-            out[(b, arms[1])] = e.a.b.split(".")[-1]
-    return out
+    from .c04 import some_edges as _se
+    return _se(f)
 
 
 def parser(rep, prog, par, roles):
@@ -337,7 +381,7 @@ def verify(rep, prog, par, roles):
     if not fs:
         rep.violation("ANCHOR", "crypto_pwhash_str_verify", "not found")
         return
-    f = fs[0]
+    f = inline(prog, fs[0], keep=(lambda g: g.key == par.key,))      # comparison helpers / closures folded in
     a2 = [c for c in f.calls() if c.rpath.endswith("argon2::argon2_hash")]
     if len(a2) != 1:
         rep.violation("ANCHOR", "str_verify argon2 call", "expected one Argon2 call", loc=f.loc())
@@ -380,9 +424,9 @@ def rehash(rep, prog, par, roles):
         rep.violation("ANCHOR", "crypto_pwhash_str_needs_rehash", "not found")
         return
     f0 = fs[0]
-    conv0 = {c.rkey for c in f0.calls() if c.is_local and len(c.args) == 2 and
-             [cm.view_info(f0, list(operand_locals(a))[0])[0] if operand_locals(a) else None for a in c.args] == [2, 3]}
-    f = inline(prog, f0, keep=(lambda g: g.key == par.key or g.key in conv0,))
+    # the cost conversion: the crate function (u64, usize) -> (u32, u32); it stays a call
+    is_conv = lambda g: g.argc == 2 and g.locals[0].get("t") == "(u32, u32)" and g.locals[1].get("t") == "u64" and g.locals[2].get("t") == "usize"
+    f = inline(prog, f0, keep=(lambda g: g.key == par.key or is_conv(g),))
     # (t, m) = convert(opslimit, memlimit): the crate-local call fed by parameters 2 and 3 in that order
     conv = [c for c in f.calls() if c.is_local and len(c.args) == 2 and
             [cm.view_info(f, list(operand_locals(a))[0])[0] if operand_locals(a) else None for a in c.args] == [2, 3]]
